@@ -2155,7 +2155,12 @@ func TestCheck(t *testing.T) {
 		"repeated offers of admitted transactions, and completions recorded by another party (Notifier.Finished as v2 handleTransactionPayload / CleanupSubscriberEvents call it) while the receiver is busy, " +
 		"after it returned before the outcome is recorded, or after the outcome was recorded, combined with every receiver outcome (ok, failure, incomplete, fatal). " +
 		"Each case = 2-3 worker processes on one data directory; the oracle runs over the merged ledgers and the final store. " +
-		"A case is non-trivial when its crash point was reached, the final DAG is not empty and persistent subscribers received deliveries; distinct by (crash points, crash target, scenario).")
+		"A case is non-trivial when its crash point was reached, the final DAG is not empty and persistent subscribers received deliveries; distinct by (crash points, crash target, scenario). " +
+		"Second workload (faultmatrix_test.go, in-process, no crash): 10 (thorough 48) further histories of 7-9 transactions on a store decorator that fails ONE store operation of one write; every Add and every WritePayload " +
+		"(public, private with the caller completing the private-transaction job, nested in the private receiver) is run with a refused commit, then once per store operation of its write closure " +
+		"(every Get/Put/Delete/Iterate/Range on the DAG, payload and subscriber job shelves) with that operation failing, then without fault; plus an unparsable record under the transaction's key on one subscriber's shelf and a subscriber " +
+		"registered on another database. One case per fault that fired (distinct by operation, failed store operation, position, history, transaction); after each call: admitted => delivered to / still queued for every selecting persistent " +
+		"subscriber (start-up replay of a fresh notifier included), not admitted => delivered to nobody, also not by a start-up replay.")
 	r.Require(r.Pick(100, 800), r.Pick(60, 500))
 	r.Assume("bbolt file store with sync writes; page-cache durability (SIGKILL, not power loss); store lock acquisition does not time out (10 min instead of the default 3 s: lock time-outs under machine load are not part of the fault model)")
 	r.Assume(fmt.Sprintf("retry budget = %d attempts per event (dag.maxRetries); an event counts as failed for good when its persisted retry counter reached the budget or its last delivery reported a fatal error", retryBudget))
